@@ -195,13 +195,14 @@ def fresh(R, ctx):
             R.ob(rid, "KEYWORDS|" + k, k in lits, "%s:%s" % (kw["file"], kw["line"]), "reserved word `%s` %s" % (k, "listed" if k in lits else "MISSING: a local can be renamed to it"))
     fn = lib.fn("process::utils::is_valid_identifier")
     if R.require(rid, "anchor:is_valid_identifier", fn is not None, "", "not found"):
-        strs = set()
-        for n_ in thir.walk(thir.body_of(fn)):
-            if n_.get("k") == "Match":
-                for arm in n_["arms"]:
-                    strs |= set(thir.pat_strings(arm["pat"]))
+        from .. import peval as _pe
         for k in LUA_KEYWORDS:
-            R.ob(rid, "matches_any_keyword|" + k, k in strs, ctx.where(fn), "`%s` %s by is_valid_identifier" % (k, "rejected" if k in strs else "NOT rejected"))
+            ev_ = _pe.PEval(lib, ctx.an)
+            try:
+                v = ev_.call_fn(fn, [k])
+            except _pe.OutOfFuel:
+                v = None
+            R.ob(rid, "matches_any_keyword|" + k, v is False, ctx.where(fn), "`%s` %s by is_valid_identifier" % (k, "rejected" if v is False else "NOT rejected"))
     fn = lib.fn("rules::rename_variables::rename_processor::RenameProcessor::new")
     if R.require(rid, "anchor:RenameProcessor::new", fn is not None, "", "not found"):
         from .. import peval
